@@ -37,7 +37,9 @@ Section ListField.
   Variable strip : ascii -> bool.           (* the strip tag as a predicate *)
 
   (* decodeStructValueSlice for []string: Trim, Split, Trim each *)
-  Definition decode_list (v : str) : list str := map (trim strip) (split d (trim strip v)).
+  (* an empty (or all-stripped) value has no elements *)
+  Definition decode_list (v : str) : list str :=
+    match trim strip v with [] => [] | t => map (trim strip) (split d t) end.
 
   (* an element as it may appear in the file: blanks, the element, blanks *)
   Record elt_ok (e : str) : Prop := { e_free : free d e; e_lead : nolead strip e; e_trail : notrail strip e }.
@@ -142,20 +144,55 @@ Section ListField.
       rewrite E2, !map_app. cbn [map]. now rewrite trim_app_r.
   Qed.
 
-  (* so the outer Trim of decodeStructValueSlice does not change the decoded elements *)
-  Lemma decode_list_outer v : decode_list v = map (trim strip) (split d v).
+  (* a text holding a byte that is not stripped does not trim to nothing *)
+  Lemma trim_ne_of_mem v c : In c v -> strip c = false -> trim strip v <> [].
   Proof.
-    unfold decode_list. destruct (trim_decomp v) as (p&q&E&A&B). rewrite E at 2.
-    rewrite map_trim_pad_l by exact A. now rewrite map_trim_pad_r.
+    intros Hin Hc E. destruct (trim_decomp v) as (p&q&Ev&A&B). rewrite E in Ev. cbn [app] in Ev.
+    assert (Al : allP strip v) by (rewrite Ev; apply Forall_app; split; assumption).
+    unfold allP in Al. rewrite Forall_forall in Al. specialize (Al c Hin). congruence.
   Qed.
 
+  (* so the outer Trim of decodeStructValueSlice does not change the decoded elements *)
+  Lemma decode_list_outer v : trim strip v <> [] -> decode_list v = map (trim strip) (split d v).
+  Proof.
+    intros NE. unfold decode_list. destruct (trim strip v) as [|c0 t0] eqn:T; [congruence|]. rewrite <- T.
+    destruct (trim_decomp v) as (p&q&E&A&B). rewrite E at 2.
+    rewrite map_trim_pad_l by exact A. now rewrite map_trim_pad_r.
+  Qed.
+  (* an empty value - nothing, or nothing but stripped bytes - has no elements *)
+  Lemma decode_list_empty v : trim strip v = [] -> decode_list v = [].
+  Proof. intros E. unfold decode_list. now rewrite E. Qed.
+
   (* C10 core: a list field, however padded and folded, decodes to its elements *)
-  Theorem C10_list_field items : items <> [] -> Forall item_ok items ->
+  Theorem C10_list_field items : items <> [] -> Forall item_ok items -> trim strip (render_list items) <> [] ->
     decode_list (render_list items) = map (fun it => snd (fst it)) items.
   Proof.
-    intros NE W. rewrite decode_list_outer, (split_render items NE W), map_map. apply map_ext_in.
+    intros NE W NT. rewrite decode_list_outer by exact NT. rewrite (split_render items NE W), map_map. apply map_ext_in.
     intros [[w1 e] w2] Hin. rewrite Forall_forall in W. specialize (W _ Hin). unfold item_ok in W. destruct W as (P1&P2&E).
     cbn [fst snd]. unfold padded. apply trim_pad; [apply P1|apply P2|apply E|apply E].
+  Qed.
+
+  (* when is the rendered list "not an empty value"?  as soon as it has two items (the delimiter is not stripped) or one
+     element that is not empty (its first byte is not stripped) *)
+  Lemma render_mem : forall items w1 e w2 c, In (w1, e, w2) items -> In c e -> In c (render_list items).
+  Proof.
+    induction items as [|[[a1 b] a2] r IH]; intros w1 e w2 c Hin Hc; [contradiction|].
+    destruct r as [|it2 r'].
+    - destruct Hin as [E|[]]. inversion E; subst. cbn [render_list]. unfold padded. apply in_or_app. right. apply in_or_app. now left.
+    - change (render_list ((a1, b, a2) :: it2 :: r')) with (padded a1 b a2 ++ d :: render_list (it2 :: r')).
+      destruct Hin as [E|Hin].
+      + inversion E; subst. apply in_or_app. left. unfold padded. apply in_or_app. right. apply in_or_app. now left.
+      + apply in_or_app. right. right. eapply IH; eauto.
+  Qed.
+  Lemma render_not_empty items : Forall item_ok items ->
+    (exists w1 e w2, In (w1, e, w2) items /\ e <> []) \/ (2 <= List.length items)%nat -> trim strip (render_list items) <> [].
+  Proof.
+    intros W [(w1&e&w2&Hin&Hne)|H2].
+    - destruct e as [|c t]; [congruence|]. rewrite Forall_forall in W. specialize (W _ Hin). cbn in W. destruct W as (_&_&[_ Hl _]).
+      apply (trim_ne_of_mem _ c); [|exact Hl]. eapply render_mem; [exact Hin|now left].
+    - destruct items as [|[[a1 b] a2] [|it2 r']]; cbn [List.length] in H2; try lia.
+      change (render_list ((a1, b, a2) :: it2 :: r')) with (padded a1 b a2 ++ d :: render_list (it2 :: r')).
+      apply (trim_ne_of_mem _ d); [|exact d_not_strip]. apply in_or_app. right. now left.
   Qed.
 End ListField.
 Print Assumptions C10_list_field.
